@@ -223,26 +223,35 @@ Definition re_toy (p s : string) : bool := existsb (fun a => re_alt a s) (split_
 Definition float_toy (s : string) : option Q := match parse_dec s with Some d => Some (dec_Q d) | None => None end.
 Fixpoint hash_toy (s : string) : Z := match s with EmptyString => 7%Z | String c r => (Z.of_N (N_of_ascii c) + 31 * hash_toy r)%Z end.
 
-(* the rows of the CTE index_grouped of a search statement: which traces, which spans *)
-Fixpoint eval_until (c : ctx) (d : db) (target : string) (withs : list (string * select)) (cte : env) : option table :=
-  match withs with
-  | [] => None
-  | (a, q) :: r =>
-      match eval_sel re_toy float_toy hash_toy [(attrs_table c, map row_of_irow d)] 12 cte false q with
-      | Some t => if String.eqb a target then Some t else eval_until c d target r ((a, t) :: cte)
-      | None => None
-      end
-  end.
-Definition index_rows (c : ctx) (d : db) (s : select) : option (list (string * list string)) :=
-  match eval_until c d "index_grouped" (s_withs s) [] with
-  | None => None
-  | Some t =>
-      all_some (map (fun r => match lookup "trace_id" r, lookup "span_id" r with
-                              | Some (VStr tr), Some (VArr l) =>
-                                  match all_some (map (fun v => match v with VStr x => Some x | _ => None end) l) with
-                                  | Some sp => Some (tr, sp) | None => None end
-                              | _, _ => None end) t)
-  end.
+(* the rows of the CTE index_grouped of a search statement: which traces, which spans.  The WITH entries are evaluated in
+   the order they are printed, each seeing the earlier ones, up to `target`.  Generic in the three library functions (the
+   theorems of props/C11.v are about index_rows_g for every instance); the oracle runs the toy instances. *)
+Section ROWS.
+  Variable re_match : string -> string -> bool.
+  Variable parse_float : string -> option Q.
+  Variable hash64 : string -> Z.
+  Fixpoint eval_until_g (c : ctx) (d : db) (target : string) (withs : list (string * select)) (cte : env) : option table :=
+    match withs with
+    | [] => None
+    | (a, q) :: r =>
+        match eval_sel re_match parse_float hash64 [(attrs_table c, map row_of_irow d)] 12 cte false q with
+        | Some t => if String.eqb a target then Some t else eval_until_g c d target r ((a, t) :: cte)
+        | None => None
+        end
+    end.
+  Definition index_rows_g (c : ctx) (d : db) (s : select) : option (list (string * list string)) :=
+    match eval_until_g c d "index_grouped" (s_withs s) [] with
+    | None => None
+    | Some t =>
+        all_some (map (fun r => match lookup "trace_id" r, lookup "span_id" r with
+                                | Some (VStr tr), Some (VArr l) =>
+                                    match all_some (map (fun v => match v with VStr x => Some x | _ => None end) l) with
+                                    | Some sp => Some (tr, sp) | None => None end
+                                | _, _ => None end) t)
+    end.
+End ROWS.
+Definition eval_until := eval_until_g re_toy float_toy hash_toy.
+Definition index_rows := index_rows_g re_toy float_toy hash_toy.
 
 (* the portion of a complex request: only traces of this hash class, or already found *)
 Definition in_portion (c : ctx) (t : string) : bool :=
